@@ -154,3 +154,84 @@ Example missing_delimiter_refuted :
   nq_okb no_comma_nq = false
   /\ fst (lex_all ex_escfg ([97; 10] ++ param_line no_comma_nq [36; 98] [49; 44; 50])) <> [TStr [97]; TNL; TStr [36; 98]; TStr [49; 44; 50]; TNL].
 Proof. split; vm_compute; [reflexivity | discriminate]. Qed.
+
+(** * The whole file of a parameter-only material *)
+(** the shader is written bare on line 1: it has to be a bare string there (not empty, no delimiter, no leading '/', '#', BOM) *)
+Definition shader_ok (s : str) : bool := match s with [] => false | h :: t => starts_bare 1 h && all_bare t end.
+Definition params_ok (cfg : nqcfg) (ps : list (str * str)) : bool :=
+  forallb (fun p => value_ok cfg (fst p) && value_ok cfg (snd p)) ps.
+
+Lemma params_read_back E cfg ps : nq_okb cfg = true -> params_ok cfg ps = true -> forall l, 2 <= l ->
+  lexes E l (params_text cfg ps) (param_tokens ps) (l + N.of_nat (length ps)).
+Proof.
+  intros Hok. induction ps as [|[n v] ps IH]; intros Hps l Hl.
+  - cbn [params_text param_tokens flat_map length N.of_nat]. rewrite N.add_0_r. apply lexes_nil.
+  - cbn [params_ok forallb fst snd] in Hps. apply andb_true_iff in Hps as [Hnv Hps]. apply andb_true_iff in Hnv as [Hn Hv].
+    cbn [params_text param_tokens flat_map fst snd].
+    change (TStr n :: TStr v :: TNL :: flat_map (fun p => [TStr (fst p); TStr (snd p); TNL]) ps)
+      with ([TStr n; TStr v; TNL] ++ param_tokens ps).
+    replace (l + N.of_nat (length ((n, v) :: ps))) with ((l + 1) + N.of_nat (length ps)) by (cbn [length]; lia).
+    apply lexes_app with (l1 := l + 1).
+    + apply param_line_reads_back; try assumption. lia.
+    + apply IH; [exact Hps | lia].
+Qed.
+
+Lemma shader_line E s : shader_ok s = true -> lexes E 1 (s ++ [LF]) [TStr s; TNL] 2.
+Proof.
+  destruct s as [|h t]; [discriminate|]. cbn [shader_ok]. intros H. apply andb_true_iff in H as [Hs Ht].
+  apply (bare_then E 1 h t LF [TNL] 2 Ht Hs); reflexivity.
+Qed.
+
+(** every material with a bare shader name and parameters the quoting decision can handle: the written file is lexed,
+    without error, to exactly shader / { / the (name, value) pairs in order / } *)
+Theorem vmt_file_reads_back E cfg shader ps : nq_okb cfg = true -> shader_ok shader = true -> params_ok cfg ps = true ->
+  lex_all E (vmt_file cfg shader ps) = (vmt_tokens shader ps, None).
+Proof.
+  intros Hok Hs Hps. apply lexes_all with (l' := 3 + N.of_nat (length ps) + 1). unfold vmt_file, vmt_tokens.
+  change (shader ++ [LF; TAB; 123; LF] ++ params_text cfg ps ++ [TAB; 125; LF])
+    with (shader ++ [LF] ++ [TAB] ++ [123] ++ [LF] ++ params_text cfg ps ++ [TAB] ++ [125] ++ [LF]).
+  rewrite (app_assoc shader [LF]).
+  change ([TStr shader; TNL; TBO; TNL] ++ param_tokens ps ++ [TBC; TNL])
+    with ([TStr shader; TNL] ++ [] ++ [TBO] ++ [TNL] ++ param_tokens ps ++ [] ++ [TBC] ++ [TNL]).
+  apply lexes_app with (l1 := 2); [apply shader_line; exact Hs|].
+  apply lexes_app with (l1 := 2); [apply lexes_ws1; reflexivity|].
+  apply lexes_app with (l1 := 2); [apply lexes_bo|].
+  apply lexes_app with (l1 := 3); [apply (lexes_lf E 2)|].
+  apply lexes_app with (l1 := 3 + N.of_nat (length ps)); [apply params_read_back; try assumption; lia|].
+  apply lexes_app with (l1 := 3 + N.of_nat (length ps)); [apply lexes_ws1; reflexivity|].
+  apply lexes_app with (l1 := 3 + N.of_nat (length ps)); [apply lexes_bc|].
+  apply lexes_lf.
+Qed.
+
+(** the token stream determines the material: two parameter-only materials with the same tokens are the same *)
+Lemma param_tokens_inj ps qs : param_tokens ps ++ [TBC; TNL] = param_tokens qs ++ [TBC; TNL] -> ps = qs.
+Proof.
+  revert qs. induction ps as [|[n v] ps IH]; intros [|[n' v'] qs] H; cbn [param_tokens flat_map fst snd app] in H.
+  - reflexivity.
+  - discriminate.
+  - discriminate.
+  - injection H as -> -> H. f_equal. apply IH. exact H.
+Qed.
+
+Theorem vmt_file_determines_material cfg s1 p1 s2 p2 : nq_okb cfg = true ->
+  shader_ok s1 = true -> params_ok cfg p1 = true -> shader_ok s2 = true -> params_ok cfg p2 = true ->
+  vmt_file cfg s1 p1 = vmt_file cfg s2 p2 -> s1 = s2 /\ p1 = p2.
+Proof.
+  intros Hok Hs1 Hp1 Hs2 Hp2 Heq.
+  pose proof (vmt_file_reads_back ex_escfg cfg s1 p1 Hok Hs1 Hp1) as H1.
+  pose proof (vmt_file_reads_back ex_escfg cfg s2 p2 Hok Hs2 Hp2) as H2.
+  rewrite Heq, H2 in H1. assert (Ht : vmt_tokens s2 p2 = vmt_tokens s1 p1) by congruence.
+  unfold vmt_tokens in Ht. cbn [app] in Ht. inversion Ht as [[Hs Hp]].
+  split; [reflexivity|]. symmetry. apply param_tokens_inj. exact Hp.
+Qed.
+
+Example ex_vmt_file :
+  shader_ok [97; 98] = true /\ params_ok ref_nq [([36; 98], [120; 32; 121]); ([47; 99], [])] = true
+  /\ vmt_file ref_nq [97; 98] [([36; 98], [120; 32; 121]); ([47; 99], [])]
+     = [97; 98; 10; 9; 123; 10;  9; 36; 98; 32; 34; 120; 32; 121; 34; 10;  9; 34; 47; 99; 34; 32; 34; 34; 10;  9; 125; 10].
+Proof. repeat split; vm_compute; reflexivity. Qed.
+(** a shader name with a space is not a bare string: the file is read as two strings on the first line *)
+Example shader_with_space_refuted :
+  shader_ok [97; 32; 98] = false
+  /\ fst (lex_all ex_escfg (vmt_file ref_nq [97; 32; 98] [])) <> vmt_tokens [97; 32; 98] [].
+Proof. split; vm_compute; [reflexivity | discriminate]. Qed.
